@@ -197,6 +197,89 @@ func c13Bounds(p *core.Program, r *core.Report, t *types.Named) {
 				ok, why = false, "no indexed access found"
 			}
 			r.Check(ok, "C13.bounds", tn+"."+name, pos, "rejects i >= size before indexing", why)
+		case "remove":
+			// remove(i): the elements after i move down by one (all of them), and the list is one
+			// shorter afterwards
+			if fi.Decl.Type.Params == nil || len(fi.Decl.Type.Params.List) == 0 || len(fi.Decl.Type.Params.List[0].Names) == 0 {
+				continue
+			}
+			info := fi.Pkg.TypesInfo
+			iobj := info.Defs[fi.Decl.Type.Params.List[0].Names[0]]
+			atom := func(e ast.Expr) (string, bool) {
+				e = ast.Unparen(e)
+				if id, ok := e.(*ast.Ident); ok && info.ObjectOf(id) == iobj {
+					return "i", true
+				}
+				if norm(e) == "size" {
+					return "size", true
+				}
+				return "", false
+			}
+			var probs []string
+			decs, copies := 0, 0
+			ast.Inspect(fi.Decl.Body, func(n ast.Node) bool {
+				switch v := n.(type) {
+				case *ast.IncDecStmt:
+					if norm(v.X) == "size" && v.Tok == token.DEC {
+						decs++
+					}
+				case *ast.AssignStmt:
+					for k, l := range v.Lhs {
+						if norm(l) != "size" || k >= len(v.Rhs) {
+							continue
+						}
+						if v.Tok == token.SUB_ASSIGN {
+							if c, ok := constIntOf(info, v.Rhs[k]); ok && c == 1 {
+								decs++
+							}
+						} else if f, ok := linearize(info, fi.Decl.Body, v.Rhs[k], atom); ok && lformKey(f) == lformKey(lform{"size": 1, "": -1}) {
+							decs++
+						}
+					}
+				case *ast.CallExpr:
+					id, ok := v.Fun.(*ast.Ident)
+					if !ok || id.Name != "copy" || len(v.Args) != 2 {
+						return true
+					}
+					copies++
+					dst, ok1 := ast.Unparen(v.Args[0]).(*ast.SliceExpr)
+					src, ok2 := ast.Unparen(v.Args[1]).(*ast.SliceExpr)
+					if !ok1 || !ok2 || norm(dst.X) != "table" || norm(src.X) != "table" || src.Low == nil || dst.Low == nil {
+						probs = append(probs, "the tail is not moved by copy(table[i:...], table[i+1:...])")
+						return true
+					}
+					dl, okd := linearize(info, fi.Decl.Body, dst.Low, atom)
+					sl, oks := linearize(info, fi.Decl.Body, src.Low, atom)
+					if !okd || !oks || lformKey(dl) != lformKey(lform{"i": 1}) || lformKey(sl) != lformKey(lform{"i": 1, "": 1}) {
+						probs = append(probs, "the tail is not moved from i+1 down to i")
+						return true
+					}
+					// the number of elements moved is min(len(dst), len(src)): both must reach size-i-1
+					want := lformKey(lform{"size": 1, "i": -1, "": -1})
+					for _, se := range []*ast.SliceExpr{dst, src} {
+						if se.High == nil {
+							continue // to the end of the backing array: long enough
+						}
+						hi, okh := linearize(info, fi.Decl.Body, se.High, atom)
+						lo, _ := linearize(info, fi.Decl.Body, se.Low, atom)
+						if !okh {
+							probs = append(probs, "cannot read the bounds of "+norm(se))
+							continue
+						}
+						if lformKey(hi.plus(lo, -1)) != want {
+							probs = append(probs, fmt.Sprintf("%s holds %s elements, the tail after i has size-i-1: the last element(s) are not moved down", norm(se), lformKey(hi.plus(lo, -1))))
+						}
+					}
+				}
+				return true
+			})
+			if copies == 0 {
+				probs = append(probs, "the elements after i are not moved down")
+			}
+			if decs != 1 {
+				probs = append(probs, fmt.Sprintf("size is decremented %d times: the list does not get shorter, the removed slot stays part of it", decs))
+			}
+			fileProbs(r, "C13.bounds", tn+".remove", pos, uniq(probs), "tail moved down by one, size decremented once")
 		case "add":
 			ps, _ := simplePaths(fi, func(n ast.Node) []paths.Event {
 				var out []paths.Event
